@@ -12,6 +12,7 @@ from vf.writers import vmdk as w
 
 ID = "C02"
 LEVEL = "exploration"
+CONTRACTS = True  # icontract postconditions on AlignedStream.read/peek/seek fire during this workload too
 STEP_BUDGET = 20_000_000  # line events per case; a case that exceeds it is reported as non-termination
 ANCHOR_FILES = ["dissect/hypervisor/disk/vmdk.py"]
 RULE = (
